@@ -113,9 +113,13 @@ CLAIMS = {
   "static layouts and, in the dynamic layout, exactly once iff its builtin switch (loaded from the named dynamic parameter and never overwritten) "
   "is non-zero — so no constraint's term can be computed and then dropped on the way to the result. The translator is validated, not assumed: its Lean printer is checked by printing the elaborated terms "
   "back (DumpAst), and the driver's evaluation of the translated programs must equal the real eval_*_polynomial_inner on random inputs for "
-  "all layouts. and (checkScope + scope_sound + no_stale_read_*) in every run an executed statement never reads a non-accumulator slot whose latest assignment was skipped (so no term of a switched-on builtin is built from the zeroed intermediates of a switched-off one). 'Not identically zero' is established with unit coefficient vectors at random points on the real code (a polynomial "
-  "identity test, as the property's quantifier says), not by a theorem.",
-  "Trusted additionally: tools/rustexpr.py parser of the Rust subset. Non-vanishing is a randomised test. Dynamic layout: shipped instance only.",
+  "all layouts. and (checkScope + scope_sound + no_stale_read_*) in every run an executed statement never reads a non-accumulator slot whose latest assignment was skipped (so no term of a switched-on builtin is built from the zeroed intermediates of a switched-off one). 'Not identically zero' is a THEOREM too (nonvanishing_<L>, 7 layouts x 2 programs): on one witness input per program (for the dynamic layout "
+  "with all ten builtins switched on — witness_dynamic_all_builtins) EVERY coefficient position i < N has an executed term whose value is non-zero; "
+  "exhibiting one such point is a complete proof that the term is not the zero function. Established by kernel evaluation (decide +kernel, no native_decide) of an "
+  "efficient evaluator (Model/AstFast: packed-Nat inputs, paged store, CPS, field inverses supplied as hints and checked by one multiplication) proved equivalent to the "
+  "executed-terms semantics for ALL programs and inputs (nzCount_sound, nonvanishing_of_witness). The witnesses are proposed by tools/gen_witness.py on every run and are "
+  "not trusted. The same is tested with unit coefficient vectors at random points on the REAL code (which ties it to the Rust evaluators, not only to their translation).",
+  "Trusted additionally: tools/rustexpr.py parser of the Rust subset. Dynamic-layout instances in the evaluation test: the shipped parameters with builtin switches toggled.",
   "Lean 4 reflective proof over programs regenerated from source by a translator + evaluation agreement", "7/C16"),
 
  'C07': ("proof",
